@@ -12,7 +12,9 @@ Open Scope N_scope.
 Theorem c07_source_shape :
   translated_packets = true /\ types_read_str_null_ok = true /\ types_read_uint_len_ok = true /\
   types_read_str_len_ok = true /\ packets_read_connect_attrs_ok = true /\ prepared_find_params_ok = true /\
-  packets_interpolate_by_position = true /\ connection_connection_command_phase_ok = true /\ translated_stream = true.
+  packets_interpolate_by_position = true /\ connection_connection_command_phase_ok = true /\ translated_stream = true /\
+  packets_parse_handle_stmt_fetch_ok = true /\ packets_parse_com_stmt_reset_ok = true /\ packets_parse_com_stmt_close_ok = true /\
+  packets_read_cursor_flags_ok = true /\ packets_read_param_type_ok = true.
 Proof. repeat split; reflexivity. Qed.
 
 (* a packet whose sequence id is wrong is rejected before its payload is consumed: the only in-step answer is to end
